@@ -31,6 +31,14 @@ func (c *Ctx) worklistLoops(u *FuncUnit) []*ast.ForStmt {
 				if call, ok := ast.Unparen(as.Rhs[0]).(*ast.CallExpr); ok && isBuiltinCall(info, call, "append") && len(call.Args) > 0 && identVar(info, call.Args[0]) == identVar(info, as.Lhs[0]) {
 					pushes++
 				}
+				// q = pushChildren(q, n): a helper that appends to the stack it is given
+				if call, ok := ast.Unparen(as.Rhs[0]).(*ast.CallExpr); ok {
+					if cu := c.m.calleeUnit(call); cu != nil && cu.Lit == nil {
+						if pi := passThroughParam(c.m, cu); pi >= 0 && pi < len(call.Args) && identVar(info, call.Args[pi]) != nil && identVar(info, call.Args[pi]) == identVar(info, as.Lhs[0]) {
+							pushes += 2
+						}
+					}
+				}
 			}
 			return true
 		})
